@@ -64,6 +64,11 @@ type Sim struct {
 
 	// knobs
 	SkipMax  int // yields skipped between scheduler visits are drawn from [0,SkipMax)
+	// StallPm: per mille of scheduler visits from instrumented code at which the task
+	// stalls (a descheduled goroutine, a GC pause, a slow node): it sleeps on the virtual
+	// clock for a tape-chosen time while everything else goes on. 0 = never.
+	StallPm int
+	Stalls  []Stall // stalls injected so far
 	MapOrder int // 0 canonical, 1 reversed, 2 rotate, 3 shuffle
 	MaxSteps uint64
 	MaxIdle  time.Duration // longest single virtual-time jump while nothing is runnable
@@ -110,6 +115,24 @@ func New(tape *Tape) *Sim {
 		SchedFP:   1469598103934665603,
 	}
 	return s
+}
+
+// Stall is one injected stall of a task.
+type Stall struct {
+	At, D time.Duration
+}
+
+var stallDurations = []time.Duration{time.Millisecond, 20 * time.Millisecond, 300 * time.Millisecond, 2 * time.Second}
+
+// StallSum is the total length of the injected stalls that overlap [from, to].
+func (s *Sim) StallSum(from, to time.Duration) time.Duration {
+	var d time.Duration
+	for _, st := range s.Stalls {
+		if st.At <= to && st.At+st.D >= from {
+			d += st.D
+		}
+	}
+	return d
 }
 
 // Current returns the installed simulator or nil.
@@ -456,6 +479,15 @@ func (s *Sim) yield(site int) {
 		return
 	}
 	atomic.AddUint64(&s.Yields, 1)
+	if s.StallPm > 0 && s.Tape.Choose(StClock, 1000) >= 1000-s.StallPm {
+		d := stallDurations[s.Tape.Choose(StClock, len(stallDurations))]
+		s.mu.Lock()
+		s.Stalls = append(s.Stalls, Stall{At: s.Now(), D: d})
+		s.Faults["node.stall"]++
+		s.logLocked("stall " + t.Name + " " + d.String())
+		s.mu.Unlock()
+		time.Sleep(d) // virtual: the scheduler sees this task blocked and runs the others
+	}
 	s.park(t, site)
 }
 
